@@ -447,7 +447,7 @@ func main() {
 	e.cw.PerFile = 700
 	cwc := vh.NewCaseWriter(o, "C16", "Base.ErrClass Model.Chunk Model.Fault", "fcase", "Fault.check_case")
 	cwc.PerFile = 16
-	e.nModel, e.maxModel = map[string]int{}, o.Count(120, 4000)
+	e.nModel, e.maxModel = map[string]int{}, o.Count(120, 1500)
 	e.cwm = vh.NewCaseWriter(o, "C16m", "Base.ErrClass Model.Chunk Model.Fault", "fcase", "Fault.check_case")
 	e.cwm.PerFile = 40
 
@@ -514,7 +514,7 @@ func main() {
 		}
 	}
 
-	total := o.Count(330, 6000)
+	total := o.Count(330, 3000)
 	for c := 0; c < total && !e.hung; c++ {
 		v := e.variants[r.Pick(len(e.variants))]
 		gi := iox.GenInputForFaults(r, v)
